@@ -53,12 +53,14 @@ def den(tree, kind: str, name: str) -> frozenset:
     return desc_star(tree, name) if kind == "named" else desc_plus(tree, name)
 
 
-def candidate_edges(tree, allow_root_target=True, root=None) -> list:
-    """All import edges representable on a direct graph: u != v and u is not an ancestor of v (restriction 1)."""
+def candidate_edges(tree, allow_root_target=True, root=None, grand=False) -> list:
+    """All import edges representable on a direct graph: u != v and u is not an ancestor of v (restriction 1).
+    grand=True also admits imports from a module to a descendant that is not its direct child (representable on a
+    directly built graph, never produced by a scan)."""
     out = []
     for u in sorted(tree):
         for v in sorted(tree):
-            if u == v or is_strict_desc(v, u):
+            if u == v or (is_strict_desc(v, u) and not (grand and len(v.split(".")) - len(u.split(".")) >= 2)):
                 continue
             if not allow_root_target and v == root:
                 continue
